@@ -529,7 +529,7 @@ class Command(Accessible):
             # convert transported value to internal value
             argument = self.argument.import_value(argument)
             # verify range
-            self.argument.validate(argument)
+            argument = self.argument.validate(argument)
             if isinstance(self.argument, TupleOf):
                 res = func(*argument)
             elif isinstance(self.argument, StructOf):
